@@ -154,6 +154,13 @@ func runParity(c *hlib.Ctx, n int) {
 				continue
 			}
 			dir := randUnit3(c).Scale(nonUnitScale(c))
+			if sh.proj2 != nil && c.Rng.Intn(3) == 0 {
+				// nearly vertical through a profile collider: an xy component of 1e-14 .. 1e-18 (what is left of a
+				// horizontal component after a rotation by a right angle); the projected 2-D ray has a tiny direction
+				e := math.Ldexp(1, -45-c.Rng.Intn(15))
+				dir = model3d.XYZ(c.Rng.NormFloat64()*e, c.Rng.NormFloat64()*e, float64(1-2*c.Rng.Intn(2))).Scale(nonUnitScale(c))
+				c.Stat("parity.profile-nearly-vertical", 1)
+			}
 			r := &model3d.Ray{Origin: origin, Direction: dir}
 			o := observe3(sh.col, r)
 			if o.failure != "" {
